@@ -130,6 +130,21 @@ def run(tier):
               "<math><mrow intent='binomial($n,$k)'><mo>(</mo><mfrac linethickness='0'><mi arg='n'>n</mi><mi arg='k'>k</mi></mfrac><mo>)</mo></mrow></math>",
               "<math><msub><mi mathvariant='normal'>H</mi><mn>2</mn></msub><mi mathvariant='normal'>O</mi><mo>+</mo><mi>CO</mi><mn>2</mn></math>",
               "<math><mi>A</mi><mo>=</mo><mn>3,14</mn><msup><mi>R</mi><mn>2</mn></msup></math>"]
+    # words that one definitions.yaml lists and another does not (function names, known words, units): a definition table that
+    # outlives a language or code switch shows on these, as a function name, with a numeric subscript, spelled letter by letter,
+    # and as a unit
+    words = S.definition_sensitive_words()
+    wsample = rng.sample(words, min(len(words), 24 if tier == "quick" else 160))
+    for w in sorted(set(wsample) | {w for w in words if not w.isascii()}):
+        shape = rng.randrange(4)
+        if shape == 0:
+            exprs.append(f"<math><mi>{w}</mi><mi>x</mi><mo>+</mo><mi>{w}</mi><mo>(</mo><mi>y</mi><mo>)</mo></math>")
+        elif shape == 1:
+            exprs.append(f"<math><msub><mi>{w}</mi><mn>2</mn></msub><mi>x</mi></math>")
+        elif shape == 2:
+            exprs.append("<math><mi>x</mi><mo>+</mo>" + "".join(f"<mi>{c}</mi>" for c in w) + "<mo>+</mo><mi>y</mi></math>")
+        else:
+            exprs.append(f"<math><mn>3</mn><mi>{w}</mi><mo>+</mo><mn>2</mn><mi intent=':unit'>{w}</mi></math>")
     cfgs = configs(rng, tier)
     scripts = []
     # M2: histories exported from the cache model
